@@ -126,7 +126,7 @@ def main():
         if kind == "replays":
             replayed += r["n"]
             for f in r["failures"]:
-                failures.append((f["clause"], f["bucket"], f["message"], f["case"], f["replay"]))
+                failures.append((f["clause"], f["vclause"], f["bucket"], f["message"], f["case"], f["replay"]))
             continue
         name = r["clause"]
         st = r["stats"]
@@ -143,15 +143,15 @@ def main():
         for k, v in st["known_seen"].items():
             known_seen[k] = known_seen.get(k, 0) + v
         for f in r["failures"]:
-            failures.append((f["clause"], f["bucket"], f["message"], f["case"], None))
+            failures.append((f["clause"], f["vclause"], f["bucket"], f["message"], f["case"], None))
 
     # classify failures: known findings vs violations (one replay file per (clause, bucket))
     violations = {}
-    for clause, bucket, message, case, rp in failures:
-        v = core.Violation(clause, bucket, message)
+    for clause, vclause, bucket, message, case, rp in failures:
+        v = core.Violation(vclause, bucket, message)
         k = core.known_match(known, prop, v)
         if k is not None:
-            key = "%s|%s" % (clause, bucket)
+            key = "%s|%s" % (vclause, bucket)
             known_seen[key] = known_seen.get(key, 0) + 1
             continue
         key = (clause, bucket)
